@@ -197,7 +197,7 @@ pub fn match_all(
 
             if opts.debug_iterations
             {
-                println!(" size: {} = {:?}{}",
+                debug_println!(" size: {} = {:?}{}",
                     ast_instr.src,
                     instr.encoding.size.unwrap(),
                     if instr.encoding_statically_known { " [static]" } else { "" });
